@@ -318,6 +318,10 @@ TOKEN_ALPHABET = [
     '"\\x"', '"\\q"', '"a', "'ab'", "''", "'", '"a\x00b"', '"\\x0"', '"\\xZ"', '"a\\', '/*', '//',
     '\\', '\x00', '\u00e9', '@',
 ]
+# characters that cannot start any MOF token: a text that has one of them at a token boundary
+# (outside strings and comments) is not MOF, so the compiler must not report success on it
+ILLEGAL_TOKENS = ('\\', '\x00', '@')
+MAX_TIMEOUTS_PER_SHARD = 3
 # reduced alphabet for pairs (thorough) and for the mock seam
 TOKEN_ALPHABET_PAIRS = ['1', '"s"', '}', ';', ',', '=', 'foo', '"a']
 TOKEN_ALPHABET_SMALL = ['1', '"s"', 'null', '(', '}', ';', ',', '$', '=', 'class', 'foo', '$zz',
@@ -588,6 +592,7 @@ class _Worker:
 
 
 _W = None
+_EMBEDDED = []
 
 
 def worker():
@@ -616,6 +621,16 @@ def worker():
         return w.lexer0.clone()
     MOFC._yacc = cached_yacc
     MOFC._lex = cached_lex
+    # observation only: remember the MOF strings handed to compile_embedded_value (positions of
+    # errors inside an embedded instance are relative to that string)
+    if not hasattr(MOFC.MOFCompiler, '_c09_real_cev'):
+        real_cev = MOFC.MOFCompiler.compile_embedded_value
+        MOFC.MOFCompiler._c09_real_cev = real_cev
+
+        def compile_embedded_value(self, mof, ns, filename=None):
+            _EMBEDDED.extend(mof if isinstance(mof, list) else [mof])
+            return real_cev(self, mof, ns, filename)
+        MOFC.MOFCompiler.compile_embedded_value = compile_embedded_value
     # prelude objects
     h = MOFWBEMConnection()
     MOFCompiler(h, log_func=None).compile_string(prelude_text(), DEFAULT_NS)
@@ -740,6 +755,7 @@ def pywbem_frames(tb):
 # constructors / validators of CIM values raise ValueError / TypeError by contract; the root cause of
 # such an exception escaping the compiler is the innermost caller outside these modules
 VALUE_LAYER = ('_cim_obj.', '_cim_types.', '_nocasedict.', '_utils.', '_exceptions.')
+VALUE_TYPES = ('_cim_obj.', '_cim_types.', '_nocasedict.')
 PRAGMA_FRAMES = ('_mof_compiler.p_compilerDirective', '_mof_compiler.p_pragmaParameter',
                  '_mof_compiler.p_pragmaName')
 
@@ -767,6 +783,25 @@ def check_of(exc, stub):
     if exc is not None and any(f in PRAGMA_FRAMES for f in pywbem_frames(exc.__traceback__)):
         return 'pragma'
     return 'deviation'
+
+
+def stub_operation(exc):
+    """name of the StubRepo operation that raised exc (innermost traceback frame), else None"""
+    tb = exc.__traceback__
+    last = None
+    while tb is not None:
+        last = tb
+        tb = tb.tb_next
+    if last is None:
+        return None
+    code = last.tb_frame.f_code
+    if os.path.abspath(code.co_filename) != os.path.abspath(__file__.replace('.pyc', '.py')):
+        return None
+    qn = getattr(code, 'co_qualname', code.co_name)
+    if qn == 'StubRepo._op':
+        # injected fault: the operation is the caller of _op
+        return last.tb_frame.f_back.f_code.co_name if last.tb_frame.f_back else None
+    return qn.split('.', 1)[1] if qn.startswith('StubRepo.') else None
 
 
 def scrub(text):
@@ -828,7 +863,12 @@ def position_problem(exc, case, embedded):
 def classify(exc, case, stub, embedded):
     """-> (outcome, what|None, where|None, expected, observed, check)"""
     out, what, where, exp, obs = _classify(exc, case, stub, embedded)
-    return out, what, where, exp, obs, (check_of(exc, stub) if what is not None else None)
+    chk = None
+    if what is not None:
+        # a wrong position / rendering is a property of the error object, whatever provoked it
+        chk = 'deviation' if what.startswith(('position:', 'render-raised', 'not-a-pywbem')) \
+            else check_of(exc, stub)
+    return out, what, where, exp, obs, chk
 
 
 def _classify(exc, case, stub, embedded):
@@ -864,8 +904,12 @@ def _classify(exc, case, stub, embedded):
     if seam == 'mock' and isinstance(exc, CIMError):
         return 'mock:CIMError', None, None, None, None
     what = 'escaped:' + type(exc).__name__
+    op = stub_operation(exc)
+    if op:
+        # the error of this repository operation was not translated
+        what += '@' + op
     frames = pywbem_frames(exc.__traceback__)
-    if type(exc) in (ValueError, TypeError) and frames and frames[-1].startswith(VALUE_LAYER):
+    if type(exc) in (ValueError, TypeError) and frames and frames[-1].startswith(VALUE_TYPES):
         # a CIM value / object constructor rejected the value: one failure class for both types
         what = 'escaped:value-conversion'
     return ('violation', what, where_of(exc), expected,
@@ -894,7 +938,8 @@ def execute(case):
         main = os.path.join(w.root, 'main.mof')
         with open(main, 'w', encoding='utf-8', newline='') as f:
             f.write(text)
-    embedded = []
+    embedded = None
+    del _EMBEDDED[:]
     cwd = os.getcwd()
     os.chdir(w.root)     # a MOF string has no file: its includes are relative to the cwd
     try:
@@ -937,17 +982,11 @@ def _execute(w, case, seam, text, ns, embedded):
     else:
         stub, handle, comp = new_compiler(seam, (case.get('fault'), case.get('fault2')),
                                           case.get('search'), bool(case.get('ext')))
-        orig = comp.compile_embedded_value
-
-        def spy(mof, ns_, filename=None):
-            embedded.extend(mof if isinstance(mof, list) else [mof])
-            return orig(mof, ns_, filename)
-        comp.compile_embedded_value = spy
         if case['entry'] == 'file':
             exc = _guarded(lambda: comp.compile_file(os.path.join(w.root, 'main.mof'), ns))
         else:
             exc = _guarded(lambda: comp.compile_string(text, ns))
-    results = [classify(exc, case, stub, [e for e in embedded if isinstance(e, str)])]
+    results = [classify(exc, case, stub, [e for e in _EMBEDDED if isinstance(e, str)])]
     ncalls = stub.ncalls if stub is not None else 0
     # hygiene: the same compiler object must still compile the reference unit correctly
     if exc is not None and comp is not None and not isinstance(exc, _Timeout):
@@ -960,12 +999,22 @@ def _execute(w, case, seam, text, ns, embedded):
                             scrub('%s: %s' % (type(hexc).__name__, str(hexc)[:300])), 'hygiene'))
         else:
             got = reference_dump(seam, stub, handle)
-            if got != w.expected[seam]:
-                kind = [k for k in ('qualifiers', 'classes', 'instances') if got[k] != w.expected[seam][k]]
-                d = objdump.diff(w.expected[seam][kind[0]], got[kind[0]])
-                results.append(('violation', 'reference-differs:' + '+'.join(kind),
-                                'after:' + (results[0][0] if results[0][1] is None else results[0][1]),
-                                'objects equal to those of a fresh compiler', scrub(str(d)[:400]),
+            exp = w.expected[seam]
+            if got != exp:
+                # failure class: which kind of reference object is missing / different
+                kinds = []
+                for k in ('qualifiers', 'classes', 'instances'):
+                    if got[k] == exp[k]:
+                        continue
+                    present = [x for x in got[k] if x is not None]
+                    kinds.append('%s=%s' % (k, 'missing' if not present else
+                                            'partly-missing' if len(present) < len(exp[k]) else
+                                            'different'))
+                first = [k for k in ('qualifiers', 'classes', 'instances') if got[k] != exp[k]][0]
+                d = objdump.diff(exp[first], got[first])
+                results.append(('violation', 'reference-differs', ';'.join(kinds),
+                                'objects equal to those of a fresh compiler',
+                                scrub('after %s: %s' % (results[0][1] or results[0][0], str(d)[:400])),
                                 'hygiene'))
     return results, ncalls
 
@@ -980,13 +1029,28 @@ def check_case(case, acc, base_text=None, minimize_seen=None):
              calls=1 + ncalls,
              sample=dict(case, files=sorted(case.get('files') or {})) if outcome != 'ok' and
              len(case['text']) < 400 else None)
+    if case.get('illegal') and results[0][0] in ('ok', 'mock:CIMError'):
+        # (a CIMError of the mock repository is raised by an operation, i.e. after parsing went on)
+        results = [('violation', 'accepted:illegal-character', 'lexer',
+                    'MOFParseError for a character that cannot start a token',
+                    'compile reported %s' % results[0][0], 'deviation')] + results[1:]
     for idx, (out, what, where, exp, obs, chk) in enumerate(results):
         if what is None:
             continue
         acc.violation(dict(check=chk, what=what, where=where), dict(case, sigidx=idx), exp, obs)
+        if what == 'timeout':
+            acc.count('watchdog-timeouts')
+            if acc.extra['watchdog-timeouts'] >= MAX_TIMEOUTS_PER_SHARD:
+                raise _ShardAbort()
+
+
+class _ShardAbort(Exception):
+    pass
 
 
 def _still(case, idx, sig):
+    if sig[1] == 'accepted:illegal-character':
+        return False      # not minimised (the flag belongs to the token edit, not to the text)
     r, _ = execute(case)
     return len(r) > idx and (r[idx][5], r[idx][1], r[idx][2]) == sig
 
@@ -1150,7 +1214,8 @@ def build_token_case(name, edits, seam):
         text = apply_token_ops(t['text'], spans, list(edits))
         if text is None:
             return None
-    return tpl_case(name, text, seam=seam,
+    illegal = any(op in ('rep', 'ins', 'app') and tok in ILLEGAL_TOKENS for _, op, tok in edits)
+    return tpl_case(name, text, seam=seam, illegal=illegal,
                     origin='%s tokens %s' % (name, json.dumps(edits, ensure_ascii=True)))
 
 
@@ -1337,9 +1402,18 @@ def plan(tier, seed):
 def run_shard(shard, tier):
     warnings.simplefilter('ignore')
     acc = Acc()
+    worker()
+    try:
+        _run_shard(shard, tier, acc)
+    except _ShardAbort:
+        acc.cap('shards were abandoned after %d watchdog timeouts each (non-termination is '
+                'reported as a violation)' % MAX_TIMEOUTS_PER_SHARD)
+    return acc
+
+
+def _run_shard(shard, tier, acc):
     part, of, sub = shard['part'], shard['of'], shard['sub']
     seen = set()
-    worker()
 
     def mine(i):
         return i % of == part
